@@ -13,14 +13,15 @@ for d in sorted(glob.glob(f"{V}/seeded/*/")):
     meta = json.load(open(mp))
     res = mx.get(name, {})
     caught = sorted(p for p, rc in res.items() if rc == 1)
-    meta["checks_run"] = {"all 20 quick checks against a scratch copy with the patch applied (selftest/matrix.py)": {
+    meta["checks_run"] = {f"quick checks {'(all 20)' if len(res) == 20 else ', '.join(sorted(res))} against a scratch copy with the patch applied (selftest/matrix.py)": {
         "exit_1_VIOLATION": caught, "exit_2_inconclusive": sorted(p for p, rc in res.items() if rc == 2)}} if res else meta.get("checks_run", {})
     json.dump(meta, open(mp, "w"), indent=1)
     own = meta["property"] in caught
     needs = " ".join(meta.get("needs", "").split())[:230]
-    rows.append(f"| {name} | {meta['property']} | {'yes' if own else ('**no** (by ' + ', '.join(caught) + ')' if caught else '**NOT CAUGHT**')} | {', '.join(c for c in caught if c != meta['property'])} | {needs} |")
+    ran = "all 20" if len(res) == 20 else (", ".join(sorted(res)) if res else "-")
+    rows.append(f"| {name} | {meta['property']} | {'yes' if own else ('**no** (by ' + ', '.join(caught) + ')' if caught else '**NOT CAUGHT**')} | {', '.join(c for c in caught if c != meta['property'])} | {ran} | {needs} |")
 open(f"{V}/seeded/INDEX.md", "w").write(
     "# Independently seeded property-breaking changes\n\nEach was written by a fresh sub-agent that saw only the property text and a scratch worktree, passes the unedited "
     "suite (251 passed + the pre-existing failure), and comes with a demo that fails with the change and passes without it (confirmed by tools_seed.py).\n\n"
-    "| change | breaks | caught by its own property's quick check | also caught by | what it does / needs |\n|---|---|---|---|---|\n" + "\n".join(rows) + "\n")
+    "| change | breaks | caught by its own property's quick check | also caught by | checks run | what it does / needs |\n|---|---|---|---|---|---|\n" + "\n".join(rows) + "\n")
 print(len(rows), "rows;", sum("yes" in r.split("|")[3] for r in rows), "caught by own check")
